@@ -6,6 +6,7 @@ import (
 	"crypto/sha256"
 	"encoding/hex"
 	"encoding/json"
+	"filippo.io/age/agessh"
 	"fmt"
 	"io"
 	"io/fs"
@@ -210,12 +211,27 @@ func c05CheckDecrypt(c c05DecCase, st *stats.Run) error {
 			continue
 		}
 		done[r.String()+r.Pass] = true
-		got, err, _ := decryptLib(file, hx.Delivery{Mode: "whole"}, []int{chunk}, c.Armor, p.Identity(r))
+		// the plaintext is read in one of the usual ways: a read loop, a short
+		// first read (a magic number, say) followed by io.Copy, or io.Copy alone
+		plan := [][]int{{chunk}, {16, -1}, {-1}, {1, 70000, -1}}[c.Seed%4]
+		got, err, _ := decryptLib(file, hx.Delivery{Mode: "whole"}, plan, c.Armor, p.Identity(r))
 		if err != nil {
-			return pbt.Failf("C05/reference-file-rejected", "a file written by the reference implementation (%v, %d bytes plaintext, armor=%v) does not decrypt for %s: %v", c.Recs, c.PlainLen, c.Armor, r, err)
+			return pbt.Failf("C05/reference-file-rejected", "a file written by the reference implementation (%v, %d bytes plaintext, armor=%v) does not decrypt for %s (read plan %v): %v", c.Recs, c.PlainLen, c.Armor, r, plan, err)
 		}
 		if !bytes.Equal(got, plain) {
 			return pbt.Failf("C05/reference-file-wrong-plaintext", "reference-written file decrypts to different bytes for %s", r)
+		}
+		if r.Kind == "ed25519" && r.Idx < len(p.EdEncPEM) && c.Seed%20 == 0 {
+			// the key still locked behind its passphrase
+			eid, eerr := agessh.NewEncryptedSSHIdentity(hx.SSHPub(p.Ed[r.Idx]), p.EdEncPEM[r.Idx], func() ([]byte, error) { return []byte(hx.SSHPassphrase), nil })
+			if eerr != nil {
+				return pbt.Failf("C05/harness", "%v", eerr)
+			}
+			got, err, _ = decryptLib(file, hx.Delivery{Mode: "whole"}, plan, c.Armor, eid)
+			if err != nil || !bytes.Equal(got, plain) {
+				return pbt.Failf("C05/reference-file-rejected", "a file written by the reference implementation (%v) does not decrypt for %s through its passphrase-protected key file: %v", c.Recs, r, err)
+			}
+			st.Label("dec:locked-ssh-key")
 		}
 		// the same identity at the end of a key ring of keys of every type that the file is not addressed to
 		ring := append(c05Foreign(p, c.Recs), p.Identity(r))
